@@ -153,6 +153,8 @@ def make_rdms(rng, feats):
         desc['lab'] = 'Universität'
     if 'empty' in feats:
         desc['excluded'] = np.array([], dtype=int)     # a zero-length array is a value, not an absent one
+    if 'none_measure' in feats:
+        desc['session'] = None                         # a descriptor that is present and has no value
     rd = {'subj': gen.wrap([f's{i}' for i in range(n_rdm)], cont), 'age': gen.wrap([20 + i for i in range(n_rdm)], cont),
           'w': gen.wrap([0.5 * i for i in range(n_rdm)], cont)}
     pd = {'cond': gen.wrap(names, cont), 'cat': gen.wrap([i % 2 for i in range(n_cond)], cont),
@@ -201,6 +203,8 @@ def make_dataset(rng, feats, temporal=False):
         desc['site'] = 'Zürich'
     if 'empty' in feats:
         desc['excluded'] = np.array([], dtype=int)
+    if 'none_measure' in feats:
+        desc['session'] = None
     if temporal:
         d = TemporalDataset(m, descriptors=desc, obs_descriptors=od, channel_descriptors=cd,
                             time_descriptors={'time': np.arange(n_t) * 0.1})
@@ -245,7 +249,13 @@ def make_result(rng, feats):
         n_r = n_cond + int(rng.integers(2, 5))
         data = RDMs(gen.rdm_vectors(rng, n_r, n_cond, 'pos'))
         np.random.seed(int(rng.integers(2 ** 31)))
-        return eval_dual_bootstrap(models, data, method='cosine', N=8, k_pattern=1, k_rdm=1)
+        which = gen.pick(rng, ['dual', 'pattern', 'rdm'])
+        if which == 'dual':
+            return eval_dual_bootstrap(models, data, method='cosine', N=8, k_pattern=1, k_rdm=1)
+        # single-factor bootstraps: the other factor's sample size is recorded as absent (None), which matters for the
+        # variance correction and hence for every test output of the loaded object
+        from rsatoolbox.inference import eval_bootstrap_pattern, eval_bootstrap_rdm
+        return (eval_bootstrap_pattern if which == 'pattern' else eval_bootstrap_rdm)(models, data, method='cosine', N=8)
     return eval_fixed(models, data, theta=theta, method=gen.pick(rng, ['cosine', 'corr']))
 
 
